@@ -782,4 +782,107 @@ Proof.
     + rewrite len_app. lia.
 Qed.
 
+(* ---- partial records: what is left unconsumed is short ---- *)
+Definition short (cap : N) (d : dres) : Prop := exists rest s1 o1, d = DOk rest s1 o1 /\ len rest < cap.
+
+Lemma short_nil cap s o : 0 < cap -> short cap (DOk [] s o).
+Proof. intros H. exists [], s, o. split; [reflexivity|rewrite len_nil; exact H]. Qed.
+
+Lemma tail_skip_short cap f wrap nxt p q d out :
+  (forall p q d, drive1 norm maxc (wrap p q) d = (skip_drive wrap nxt p q d, [])) ->
+  (forall p q, is_final (wrap p q) = false) -> 0 < cap -> len d < p + q ->
+  short cap (drive_tail (S f) (into_skip wrap nxt p q) d out).
+Proof.
+  intros Hw Hf Hc Hl. destruct (N.eqb_spec (len d) 0) as [E|E].
+  { rewrite (len_zero_nil d E). apply short_nil; exact Hc. }
+  rewrite drive_tail_ne by (apply len_pos_ne; lia).
+  assert (Ei : into_skip wrap nxt p q = wrap p q).
+  { unfold into_skip. destruct (N.eqb_spec p 0); [|reflexivity]. destruct (N.eqb_spec q 0); [lia|reflexivity]. }
+  rewrite Ei, drive_S_nf by apply Hf. rewrite Hw. unfold skip_drive.
+  destruct (N.ltb_spec (len d) p); [apply short_nil; exact Hc|].
+  destruct (N.ltb_spec (len d) (p + q)); [apply short_nil; exact Hc|lia].
+Qed.
+
+Lemma take_prefix_cases {A} k (a b : list A) : k < len a + len b ->
+  (k < len a /\ take k (a ++ b) = take k a /\ len (take k a) = k) \/
+  (len a <= k /\ take k (a ++ b) = a ++ take (k - len a) b /\ len (take (k - len a) b) = k - len a /\
+   k - len a < len b).
+Proof.
+  intros H. destruct (N.ltb_spec k (len a)) as [H1|H1].
+  - left. split; [exact H1|]. split; [apply take_app_le; lia|rewrite len_take; lia].
+  - right. split; [exact H1|]. split; [apply take_app_ge; exact H1|]. split; [rewrite len_take; lia|lia].
+Qed.
+
+Lemma tail_values_short cap f (wrap : N -> N -> N -> state) nxt body pad k out :
+  (forall v p q d, drive1 norm maxc (wrap v p q) d = values_drive maxc wrap nxt v p q d) ->
+  (forall v p q, is_final (wrap v p q) = false) -> 0 < cap ->
+  (forall k, len (snd (nv_run (take k body))) < cap) -> k < len body + len pad ->
+  short cap (drive_tail (S f) (wrap 0 (len body) (len pad)) (take k (body ++ pad)) out).
+Proof.
+  intros Hw Hf Hc Hgv Hk. set (d := take k (body ++ pad)).
+  destruct (N.eqb_spec (len d) 0) as [E|E].
+  { rewrite (len_zero_nil d E). apply short_nil; exact Hc. }
+  rewrite drive_tail_ne by (apply len_pos_ne; lia).
+  rewrite drive_S_nf by apply Hf. rewrite Hw. unfold values_drive. cbv zeta.
+  destruct (N.ltb_spec 0 (len body)) as [Hp|Hp].
+  - destruct (take_prefix_cases k body pad Hk) as [(H1 & H2 & H3)|(H1 & H2 & H3 & H4)]; fold d in H2.
+    + assert (Hd : len d < len body) by (rewrite H2, H3; exact H1).
+      replace (N.min (len d) (len body)) with (len d) by lia. rewrite (take_all (len d) d) by lia.
+      pose proof (Hgv k) as Hb. rewrite <- H2 in Hb. pose proof (nv_run_rest_len d) as Hr.
+      destruct (nv_run d) as [ps rest]. cbn [snd] in Hb, Hr.
+      destruct (N.ltb_spec (len d) (len body)); [|lia].
+      eexists _, _, _. split; [reflexivity|]. rewrite len_drop. lia.
+    + assert (Hd : len d = len body + (k - len body)) by (rewrite H2, len_app, H3; reflexivity).
+      destruct (nv_run (take (N.min (len d) (len body)) d)) as [ps rest].
+      destruct (N.ltb_spec (len d) (len body)); [lia|].
+      destruct (N.ltb_spec (len (drop (len body) d)) (len pad)) as [_|H6]; [apply short_nil; exact Hc|].
+      rewrite len_drop in H6. lia.
+  - destruct (N.ltb_spec (len d) (len pad)) as [_|H6]; [apply short_nil; exact Hc|].
+    unfold d in H6. rewrite len_take, len_app in H6. lia.
+Qed.
+
+Lemma tail_pad_short cap f i q d out : 0 < cap -> len d < q ->
+  short cap (drive_tail (S f) (Params i 0 q) d out).
+Proof.
+  intros Hc Hl. destruct (N.eqb_spec (len d) 0) as [E|E].
+  { rewrite (len_zero_nil d E). apply short_nil; exact Hc. }
+  rewrite drive_tail_ne by (apply len_pos_ne; lia).
+  rewrite drive_S_nf by reflexivity. cbn [drive1]. rewrite params_drive_eq.
+  change (0 <? 0) with false. cbn iota. unfold p_pad.
+  destruct (N.ltb_spec 0 q); [|lia]. destruct (N.leb_spec (len d) q); [|lia].
+  apply short_nil; exact Hc.
+Qed.
+
+Lemma tail_params_short cap f i body pad k out :
+  inner_ok i -> bytes_ok body -> len (ibuf i ++ body) <= USIZE_MAX -> 0 < len body -> 0 < cap ->
+  (forall k, len (snd (nv_run (ibuf i ++ take k body))) < cap) -> k < len body + len pad ->
+  short cap (drive_tail (S f) (Params i (len body) (len pad)) (take k (body ++ pad)) out).
+Proof.
+  intros Hi Hb Hsz Hp Hc Hfit Hk. set (d := take k (body ++ pad)).
+  destruct (N.eqb_spec (len d) 0) as [E|E].
+  { rewrite (len_zero_nil d E). apply short_nil; exact Hc. }
+  rewrite drive_tail_ne by (apply len_pos_ne; lia).
+  rewrite drive_S_nf by reflexivity. cbn [drive1]. rewrite params_drive_eq.
+  destruct (N.ltb_spec 0 (len body)); [|lia].
+  destruct (take_prefix_cases k body pad Hk) as [(H1 & H2 & H3)|(H1 & H2 & H3 & H4)]; fold d in H2.
+  - assert (Hd : len d < len body) by (rewrite H2, H3; exact H1).
+    destruct (N.ltb_spec (len d) (len body)); [|lia].
+    assert (Hbd : bytes_ok d) by (rewrite H2; apply bytes_ok_take; exact Hb).
+    assert (Hszd : len (ibuf i ++ d) <= USIZE_MAX) by (rewrite len_app in *; lia).
+    destruct (HS1 i d false Hi Hbd Hszd) as (i' & c & Hps & Hi' & Hcl & _).
+    rewrite Hps. pose proof (HS2 i d false i' c Hi Hbd Hszd Hps) as H2'.
+    pose proof (Hfit k) as Hb'. rewrite <- H2 in Hb'.
+    destruct (nv_run (ibuf i ++ d)) as [ps rest]. cbn [snd] in Hb'. destruct H2' as [_ Hr].
+    destruct (N.ltb_spec (len body) c); [lia|]. destruct (N.ltb_spec (len d) c); [lia|].
+    eexists _, _, _. split; [reflexivity|]. rewrite <- Hr, len_app in Hb'. lia.
+  - assert (Hd : len d = len body + (k - len body)) by (rewrite H2, len_app, H3; reflexivity).
+    destruct (N.ltb_spec (len d) (len body)); [lia|].
+    rewrite H2, take_len_app, drop_len_app.
+    destruct (HS1 i body true Hi Hb Hsz) as (i' & c & Hps & Hi' & _ & Hce & _).
+    specialize (Hce eq_refl). subst c. rewrite Hps, N.eqb_refl. cbn [negb]. unfold p_pad.
+    destruct (N.ltb_spec 0 (len pad)); [|lia].
+    destruct (N.leb_spec (len (take (k - len body) pad)) (len pad)); [|lia].
+    apply short_nil; exact Hc.
+Qed.
+
 End Records.
